@@ -2,7 +2,7 @@
 import glob
 import os
 
-from harness import fw, gen_view, view_x, cpp_build
+from harness import fw, gen_view, view_x, cpp_build, view_ref
 from harness.irx import OutOfModel
 
 META = {
@@ -334,3 +334,5 @@ def run(ctx):
         ctx.violation("view-correspondence", "model and generated C++ disagree on a buffer of length %d" % len(obj["buffer"]),
                       dict(kind="view", correspondence="View.Model.run_view vs generated C++ observations",
                            module=obj["module"], buffer=obj["buffer"], cpp=obj["cpp"], model=out[:4000]), found_input=True)
+    # the reference semantics (View/Ref.v) against the same C++ observations, and against modules generated for its class
+    view_ref.run(ctx, compile_ir, mods, cases)
